@@ -10,7 +10,8 @@ TIME_BUDGET = {"quick": 60, "thorough": 270}
 META = {
     "rule": "generated modules (real files) with 8-12 single-return helpers (def with/without docstring, name = lambda ..., nested in a "
     "factory = captured through a closure) over a body grammar: bare parameter, constant, attribute / method chains, tuples, arithmetic, "
-    "nested lambdas whose parameter re-uses a helper parameter name or the conventional 'j', helpers calling leaf helpers (depth <= 3), "
+    "nested lambdas (one and two deep, curried) whose parameters re-use helper parameter names, the conventional 'j' or the names the "
+    "call arguments use, helpers calling leaf helpers (depth <= 3), "
     "1-3 parameters with defaults; 20-30 call sites per file inside passed lambdas with positional / keyword / re-ordered / mixed call "
     "shapes, argument expressions that mention names also bound inside the helper (capture trap), call sites inside nested lambdas; "
     "two-statement helpers that cannot be inlined; monitor: behaviour(callable) - python really calling the helpers - vs "
